@@ -453,7 +453,7 @@ fn portable_expr(e: &E) -> E {
         E::Text(_) => E::Int(1),
         E::Bool(b) => E::Int(*b as i64),
         E::ConstBool(b) => E::Int(*b as i64),
-        E::Func(F::Round | F::CharLength | F::Lower | F::Upper | F::Custom, a) => portable_expr(&a[0]),
+        E::Func(F::Round | F::Lower | F::Upper | F::Custom, a) => portable_expr(&a[0]),
         E::CustomText => E::Int(2),
         E::CustomTmpl(x, y) => E::Bin(Box::new(portable_expr(x)), Op::Add, Box::new(portable_expr(y))),
         E::LikePat { x, .. } => E::Bin(Box::new(portable_expr(x)), Op::Is, Box::new(E::Null)),
